@@ -365,6 +365,9 @@ def ord3_link(prefixes):
 EXTRA_LINKS = {
     "repl_type": dict(resname=["A", "B", "C", "D"], atoms={"+BB": {"replace": {"atype": "ZZ"}}},
                       inter={"bonds": [I(["BB", "+BB"], ["1", "0.48", "480"])]}),
+    # two untagged terms on the same atoms in a .ff link (the later one counts) - must not depend on other files being read
+    "dup2": dict(resname=["A", "B", "C", "D"],
+                 inter={"dihedrals": [I(["SA", "BB", "+BB", "+SA"], ["9", "0", "1.5", "1"]), I(["SA", "BB", "+BB", "+SA"], ["9", "180", "2.5", "2"])]}),
     "sel_type": dict(resname=["A", "B", "C", "D"], atoms={"+BB": {"atype": "P1"}},
                      inter={"angles": [I(["BB", "+BB", "++BB"], ["2", "140", "14"])]}),
 }
